@@ -352,6 +352,34 @@ Fixpoint ns_checks (d : list (elem jstmt string)) (D : dobs) (ns : list string) 
   | _, _ => None
   end.
 
+(* the known finding `list-then-dash-line`: unordered_list() skips the blank lines after its last item and then
+   commits to a further item as soon as the next line starts with a dash; a `-- comment` line or a line such as
+   `-3 + x` is not "dash, space": "Expects space after dash" is logged and the whole document is a parse error.
+   Class: a prose block whose last line is a bullet (dash, space), directly followed by top-level code whose first line
+   starts with a dash. *)
+Fixpoint skip_spaces (s : string) : string :=
+  match s with String " "%char r => skip_spaces r | _ => s end.
+Definition starts_dash (s : string) : bool :=
+  match skip_spaces s with String "-"%char _ => true | _ => false end.
+Definition starts_bullet (s : string) : bool :=
+  match skip_spaces s with String "-"%char (String " "%char _) => true | _ => false end.
+(* does the last non-empty line of a text start with a dash?  [cur] = the line being read, [lastl] = last complete one *)
+Fixpoint last_line_dash_go (s : string) (cur : string -> string) (lastl : string) : bool :=
+  match s with
+  | EmptyString => match cur EmptyString with EmptyString => starts_bullet lastl | l => starts_bullet l end
+  | String "010"%char r =>
+      last_line_dash_go r (fun t => t) (match cur EmptyString with EmptyString => lastl | l => l end)
+  | String c r => last_line_dash_go r (fun t => cur (String c t)) lastl
+  end.
+Definition last_line_dash (s : string) : bool := last_line_dash_go s (fun t => t) EmptyString.
+Fixpoint kf_list_dash (d : list (elem jstmt string)) : bool :=
+  match d with
+  | Prose p :: ((Code (it :: _) :: _) as r) =>
+      (last_line_dash p && starts_dash (item_text it)) || kf_list_dash r
+  | _ :: r => kf_list_dash r
+  | [] => false
+  end.
+
 Definition stream_ok (s : string) : bool := mem s ["plain"; "codelike"; "layout"].
 
 (* None = the observation does not belong to this case (internal error of the machinery) *)
@@ -362,7 +390,8 @@ Definition judge_doc (stream : string) (jd : list jelem) (os : list dobs) : opti
       if negb (String.eqb (o_src D) (render_doc jd) && String.eqb (o_src M) (main_only d)) then None else
       if is_perr (o_res M) then Some (v_bad "code-only-document-does-not-parse" (Lx []))
       else if is_perr (o_res D) then
-        if String.eqb stream "plain" then Some (v_bad "plain-prose-parse-error" (Lx []))
+        if kf_list_dash d then Some (v_kf "list-then-dash-line")
+        else if String.eqb stream "plain" then Some (v_bad "plain-prose-parse-error" (Lx []))
         else Some (v_adv (stream ++ "-parse-error"))
       else
         match ns_checks d D (ns_names d) rest with
